@@ -21,7 +21,7 @@ Definition why (st : state) (now : time) (o : op) (i : id) : Prop :=
                 find_live_sub st name = Some s /\
                 pull_why s (flat_map (fun i => match get_del st i with Some d => [d] | None => [] end)
                                      (returned ++ others)) i
-  | Job JDeadLetterSweep _ _ chosen false _ _ => In i (sort_ids chosen)
+  | Job JDeadLetterSweep _ _ chosen false _ _ => In i chosen
   | _ => False
   end.
 
@@ -142,7 +142,7 @@ Proof.
     + unfold run_job. crush_same.
     + apply rel_dels_eq; reflexivity.
     + unfold run_job.
-      destruct (sweep_each st (sort_ids chosen) wnow fr) as [[[st1 fr1] w1] n1] eqn:E.
+      destruct (sweep_each st chosen wnow fr) as [[[st1 fr1] w1] n1] eqn:E.
       cbn [r_state done].
       apply (sweep_each_rel (seekK st (Job JDeadLetterSweep min_age max chosen false wnow fr))) in E.
       destruct E as (R&_). exact R.
